@@ -21,19 +21,25 @@ ASSUMPTIONS = ['cut enumerator and SAT solver are the shims (a valid family of c
 
 def sources(tier, seed, ctx):
     rng = random.Random(seed + 4)
-    n = 240 if tier == 'quick' else 4000
+    n = 420 if tier == 'quick' else 5000
     srcs = []
     for j in range(n):
-        ni = rng.randint(2, 5)
-        ng = rng.randint(3, 12 if tier != 'quick' else 9)
-        net = gen.random_netlist(rng, ni=ni, ng=ng, types=SUPPORTED, amax=2, locality=0.5)
-        outs = gen.pick_outputs(rng, ni, ng, kind=rng.choice(['last', 'some', 'some', 'many']))
+        big = j % 4 == 0            # larger circuits with reconvergent fan-out (correlated cut leaves), default-like parameters
+        ni = rng.randint(4, 7) if big else rng.randint(2, 5)
+        ng = rng.randint(6, 14) if big else rng.randint(3, 12 if tier != 'quick' else 9)
+        net = gen.random_netlist(rng, ni=ni, ng=ng, types=SUPPORTED, amax=2, locality=0.7 if big else 0.5)
+        outs = gen.pick_outputs(rng, ni, ng, kind=rng.choice(['last', 'some', 'some', 'many', 'dup']))
         outs = [o for o in outs if o > ni] or [ni + ng]
         srcs.append({'net': [net[0], net[1]], 'outs': outs, 'basis': rng.choice(['AIG', 'XAIG', 'FULL', 'xaig']), 'basis_enum': rng.random() < 0.4,
-                     'validation': rng.random() < 0.5, 'max_size': rng.choice([2, 3, 4, 5, 6]), 'cut_size': rng.choice([2, 3, 4, 5]),
-                     'cut_limit': rng.choice([3, 8, 25]), 'time_limit': rng.choice([0, 0, 0, 15]),
-                     'hashseed': rng.choice([0, 1, 2, 7, 42]), 'cutseed': rng.choice([0, 0, rng.randrange(1, 10**6)])})
-    ctx['gen_note'] = f'{n} minimize_subcircuits calls'
+                     'validation': rng.random() < 0.5, 'max_size': rng.choice([4, 5, 6, 7] if big else [2, 3, 4, 5, 6]),
+                     'cut_size': rng.choice([4, 5] if big else [2, 3, 4, 5]),
+                     'cut_limit': rng.choice([8, 25] if big else [3, 8, 25]), 'time_limit': rng.choice([0, 0, 0, 15]),
+                     'hashseed': rng.choice([0, 1, 2, 7, 42]), 'cutseed': rng.choice([0, 0, rng.randrange(1, 10**6)]),
+                     # storage order of the argument: as built / non-topological (bench text with forward references)
+                     'storage': rng.choice(['built', 'built', 'shuffled']),
+                     # minimise the result of the first call once more (its storage order is not topological any more)
+                     'twice': rng.random() < 0.25, 'ss': rng.randrange(10**6)})
+    ctx['gen_note'] = f'{n} minimize_subcircuits calls (a quarter of them twice in a row)'
     return srcs
 
 
